@@ -768,7 +768,7 @@ def model_specs(draw, **kw):
   cfg = dict(DEFAULT_CFG)
   cfg.update(kw)
   names = _Names()
-  nsg = draw(st.integers(1, cfg['max_subgraphs']))
+  nsg = draw(st.integers(min(cfg.get('min_subgraphs', 1), cfg['max_subgraphs']), cfg['max_subgraphs']))
   sgs = []
   cfg['_all_tensors'] = lambda: [(i, s.tensors) for i, s in enumerate(sgs)]
   cfg['_tensor'] = lambda ref: sgs[ref[0]].tensors[ref[1]]
